@@ -460,10 +460,14 @@ func (t *Trie) updateRefCount(h util.Uint256, key []byte, index uint32) int32 {
 		data, err = getFromStore(key, t.mode, t.Store)
 		if err == nil {
 			cnt = int32(binary.LittleEndian.Uint32(data[len(data)-4:]))
+			// The slice is owned by the store (it can be a part of an already
+			// committed, not yet flushed changeset), it's patched below.
+			data = bytes.Clone(data)
 		}
 	}
 	if len(data) == 0 {
-		data = append(node.bytes, 1, 0, 0, 0, 0)
+		// node.bytes can share its array with a record owned by the store.
+		data = append(bytes.Clone(node.bytes), 1, 0, 0, 0, 0)
 	}
 	cnt += node.refcount
 	switch {
